@@ -1,9 +1,9 @@
 SPECIFICATION Spec
 CONSTANTS
- Fam = "devOrder"
+ Fam = "devLastOfName"
  Cases <- FamCases
  DevMono = FALSE
- DevNoOrder = TRUE
+ DevNoOrder = FALSE
  DevNoLinktype = FALSE
  DevFirstWins = FALSE
  DevAmbig = FALSE
@@ -13,7 +13,7 @@ CONSTANTS
  DevF13 = FALSE
  DevVerKey = FALSE
  DevDangEnd = FALSE
- DevLastOfName = FALSE
+ DevLastOfName = TRUE
  DevNoAtomResname = FALSE
  DevOrderedPairs = FALSE
  DevGateOnce = FALSE
